@@ -108,7 +108,11 @@ class ACChecker(object):
         if self.is_complex:
             arg /= sym.I
 
-        p = sym.Poly(arg, self.var)
+        try:
+            p = sym.Poly(arg, self.var)
+        except sym.PolynomialError:
+            # Argument is not a polynomial in var, e.g., sin(tri(t))
+            return False
         coeffs = p.all_coeffs()
         if len(coeffs) != 2:
             return False
